@@ -585,6 +585,12 @@ func runC10(ctx *Ctx) *Report {
 			cases = append(cases, massiveCase{Kind: "massive", Op: ops[(s+r)%5], Doc: hxs(d), Text: d, Sched: int64(9500 + 100*s + r), Fmt: fmtDefault, Known: "unit-switch-between-roots", Procs: []int{0, 2, 16, 1}[r%4]})
 		}
 	}
+	// rows that end in CR CR LF: the name keeps one CR, in both modes (D19)
+	for s, d := range []string{"- a\r\r\n  - b\r\r\n- c\r\r\n", "- a\r\n- b\r\r\n  - c\r\n", "# h\r\r\n- x\r\n- y\r\r\n", "- a\r\r\r\n  - b\r\n"} {
+		for oi, op := range []string{"text", "json", "walk", "dry"} {
+			cases = append(cases, massiveCase{Kind: "massive", Op: op, Doc: hxs(d), Text: d, Sched: int64(9700 + 10*s + oi), Fmt: fmtDefault, Exts: []string{".go"}})
+		}
+	}
 	// a failing reader: error iff error
 	{
 		doc := spell(big[:12], plainSpelling)
